@@ -408,6 +408,8 @@ def c05(ctx):
 
 def c06(ctx):
     return [Native("faults", "c06"),
+            WithShim("rsa-kem-leading-zeros", "c06", args=["--part", "kemzeros"], shards=7, quick_shards=7,
+                     note="k1.seal blobs with 1-3 leading zero bytes in the RSA-KEM ciphertext (forced through the RNG shim): the blob with those bytes stripped or with extra ones must be refused"),
             NativeRelease("release-profile", "c06", args=["--scale", "0.2"], note="the same monitor built with the plain release profile (debug assertions and overflow checks off, as users ship it) on a 20 % sample: verdicts can differ between profiles")]
 
 
